@@ -84,4 +84,14 @@ VARIANTS = [
          old="        opt = self._get_suboptimizer()\n        tree = opt.search(inputs, output, size_dict)\n        thrid = threading.get_ident()\n        self._suboptimizers[thrid] = opt\n",
          new="        opt = self._get_suboptimizer()\n        thrid = threading.get_ident()\n        self._suboptimizers[thrid] = opt\n        tree = opt.search(inputs, output, size_dict)\n",
          expect=("C16-OWNRUN", "records-suboptimizer")),
+    dict(name="seed C16_11: outstanding pool trials kept in a class-level list", kind="break",
+         edits=[("cotengra/hyperoptimizers/hyper.py", "    compressed = False\n    multicontraction = False\n\n    def __init__(\n        self,\n        methods=None,", "    compressed = False\n    multicontraction = False\n    _futures = []\n\n    def __init__(\n        self,\n        methods=None,"),
+                ("cotengra/hyperoptimizers/hyper.py", "        constants = get_hyper_constants()\n        self._futures = []\n", "        constants = get_hyper_constants()\n        self._maybe_cancel_futures()\n")],
+         expect=("C16-CLASSSTATE", "_futures")),
+    dict(name="twin: a class-level default that every search re-binds on the instance", kind="twin",
+         edits=[("cotengra/hyperoptimizers/hyper.py", "    compressed = False\n    multicontraction = False\n\n    def __init__(\n        self,\n        methods=None,", "    compressed = False\n    multicontraction = False\n    _futures = ()\n\n    def __init__(\n        self,\n        methods=None,")]),
+    dict(name="seed C16_12: a failed re-search keeps the cached entry but still says 'searched'", kind="break", file="cotengra/reusable.py",
+         old="            con = self._run_optimizer(inputs, output, size_dict)\n", new="            try:\n                con = self._run_optimizer(inputs, output, size_dict)\n            except KeyError:\n                if missing:\n                    raise\n                return should_run, self._cache[h]\n", expect=("C16-OWNRUN", "return@flag")),
+    dict(name="twin: a failed re-search keeps the cached entry and says 'not searched'", kind="twin", file="cotengra/reusable.py",
+         old="            con = self._run_optimizer(inputs, output, size_dict)\n", new="            try:\n                con = self._run_optimizer(inputs, output, size_dict)\n            except KeyError:\n                if missing:\n                    raise\n                return False, self._cache[h]\n"),
 ]
